@@ -1,17 +1,140 @@
 package main
 
 import (
+	"flag"
 	"fmt"
-	"golang.org/x/tools/go/packages"
-	"golang.org/x/tools/go/ssa"
-	"golang.org/x/tools/go/ssa/ssautil"
+	"os"
+	"regexp"
+	"sort"
+	"strings"
+	"sync"
+	"time"
 )
 
 func main() {
-	cfg := &packages.Config{Mode: packages.LoadAllSyntax, Dir: "/repo", BuildFlags: []string{"-tags=verif"}}
-	pkgs, err := packages.Load(cfg, "./...")
-	if err != nil { panic(err) }
-	prog, spkgs := ssautil.AllPackages(pkgs, ssa.GlobalDebug)
-	prog.Build()
-	fmt.Println(len(pkgs), len(spkgs))
+	if len(os.Args) < 2 {
+		fmt.Fprintln(os.Stderr, "usage: govc <sweep|check|selftest|list> ...")
+		os.Exit(2)
+	}
+	switch os.Args[1] {
+	case "sweep":
+		cmdSweep(os.Args[2:])
+	case "check":
+		cmdCheck(os.Args[2:])
+	case "list":
+		cmdList(os.Args[2:])
+	default:
+		fmt.Fprintln(os.Stderr, "unknown command", os.Args[1])
+		os.Exit(2)
+	}
+}
+
+func mustEnv(repo string) *Env {
+	// go/packages shells out to `go list`: make sure the matching toolchain is first on PATH
+	os.Setenv("PATH", "/opt/veriftools/go1.26.8/bin:"+os.Getenv("PATH"))
+	os.Setenv("GOTOOLCHAIN", "local")
+	os.Setenv("GOFLAGS", "-mod=mod")
+	os.Setenv("GOPROXY", "off")
+	e, err := loadEnv(repo)
+	if err != nil {
+		fmt.Fprintln(os.Stderr, "load:", err)
+		os.Exit(3)
+	}
+	if err := e.loadContracts(); err != nil {
+		fmt.Fprintln(os.Stderr, "contracts:", err)
+		os.Exit(3)
+	}
+	return e
+}
+
+func cmdList(args []string) {
+	fs := flag.NewFlagSet("list", flag.ExitOnError)
+	repo := fs.String("repo", "/repo", "repository")
+	pat := fs.String("f", ".", "regexp on function names")
+	fs.Parse(args)
+	e := mustEnv(*repo)
+	re := regexp.MustCompile(*pat)
+	var ns []string
+	for n := range e.funcs {
+		if re.MatchString(n) {
+			ns = append(ns, n)
+		}
+	}
+	sort.Strings(ns)
+	for _, n := range ns {
+		fmt.Println(n)
+	}
+}
+
+// cmdSweep: developer command — verify the functions matching a regexp and print every obligation.
+func cmdSweep(args []string) {
+	fs := flag.NewFlagSet("sweep", flag.ExitOnError)
+	repo := fs.String("repo", "/repo", "repository")
+	pat := fs.String("f", ".", "regexp on function names")
+	to := fs.Int("t", 10, "timeout seconds")
+	verbose := fs.Bool("v", false, "print scripts of failed obligations")
+	kinds := fs.String("kinds", "", "extra obligation kinds (comma separated)")
+	dump := fs.String("dump", "", "directory to dump scripts of failed obligations")
+	fs.Parse(args)
+	t0 := time.Now()
+	e := mustEnv(*repo)
+	fmt.Fprintf(os.Stderr, "loaded in %.1fs, %d functions, %d contracts\n", time.Since(t0).Seconds(), len(e.funcs), len(e.contracts))
+	re := regexp.MustCompile(*pat)
+	var ns []string
+	for n := range e.funcs {
+		if re.MatchString(n) {
+			ns = append(ns, n)
+		}
+	}
+	sort.Strings(ns)
+	var extra []string
+	if *kinds != "" {
+		extra = strings.Split(*kinds, ",")
+	}
+	results := make([]*FuncResult, len(ns))
+	var wg sync.WaitGroup
+	sem := make(chan bool, 8)
+	for i, n := range ns {
+		wg.Add(1)
+		go func(i int, n string) {
+			defer wg.Done()
+			sem <- true
+			results[i] = e.verifyFunc(e.funcs[n], extra)
+			<-sem
+		}(i, n)
+	}
+	wg.Wait()
+	fmt.Fprintf(os.Stderr, "generated in %.1fs\n", time.Since(t0).Seconds())
+	solveAll(results, solveCfg{quickS: 3, fullS: *to, workers: 16})
+	nd, nf := 0, 0
+	for _, r := range results {
+		if r.Fatal != "" {
+			fmt.Printf("FATAL %s: %s\n", r.Func, r.Fatal)
+			continue
+		}
+		for _, ob := range r.Obs {
+			if ob.Status == "discharged" || ob.Status == "cover-ok" {
+				nd++
+				if *verbose {
+					fmt.Printf("ok    %-70s %s %.2fs\n", ob.Name, ob.Backend, ob.Time)
+				}
+				continue
+			}
+			nf++
+			fmt.Printf("%-14s %s  [%s] %s %.2fs %v\n", ob.Status, ob.Name, ob.Pos, ob.Backend, ob.Time, ob.Model)
+			if *dump != "" {
+				os.MkdirAll(*dump, 0o755)
+				os.WriteFile(fmt.Sprintf("%s/%s.smt2", *dump, sanitize(ob.Name)), []byte(ob.Script), 0o644)
+			}
+		}
+		if len(r.Partial) > 0 && *verbose {
+			fmt.Printf("  partial %s: %v\n", r.Func, r.Partial)
+		}
+	}
+	fmt.Printf("functions=%d discharged=%d failed=%d wall=%.1fs\n", len(results), nd, nf, time.Since(t0).Seconds())
+}
+
+func cmdCheck(args []string) {
+	fmt.Fprintln(os.Stderr, "check: not implemented yet")
+	os.Exit(2)
 }
